@@ -769,7 +769,7 @@ func (c *client) filterSystemPeerValues(stmt *parser.SelectStatement, filtered [
 		if name == "data_center" {
 			return codecs.EncodeType(datatype.Varchar, c.proxy.cluster.NegotiatedVersion, peer.dc)
 		} else if name == "host_id" {
-			return codecs.EncodeType(datatype.Uuid, c.proxy.cluster.NegotiatedVersion, nameBasedUUID(peer.addr.String()))
+			return codecs.EncodeType(datatype.Uuid, c.proxy.cluster.NegotiatedVersion, nameBasedUUID(peer.addr.IP.String()))
 		} else if name == "tokens" {
 			return codecs.EncodeType(datatype.NewList(datatype.Varchar), c.proxy.cluster.NegotiatedVersion, peer.tokens)
 		} else if name == "peer" {
